@@ -96,13 +96,14 @@ class Built:
         if M.shape != (self.dL, self.dR):
             raise core.MachineryError('spec matrix has shape %r, legs give %r' % (M.shape, (self.dL, self.dR)))
         self.cplx = bool(trec['cplx'])
+        self.dt = str(trec.get('dt', 'complex' if self.cplx else 'float'))
         if self.kind == 'ipi2':
             M = 1j * np.pi / 2 * M
             dtype = np.complex128
         elif self.cplx:
             dtype = np.complex128
         else:
-            dtype = np.float64
+            dtype = np.int64 if self.dt == 'int' else np.float64      # integer entries: an int64 Array is exact
             M = M.real.copy()
         self.M = M
         self.dtype = dtype
@@ -160,14 +161,14 @@ class Built:
         if self.nL == 2:
             X = X.split_legs(0)
         a = X.to_ndarray()
-        return a.reshape(self.dL, -1)
+        return a.reshape(self.dL, a.size // self.dL)
 
     def cols(self, X):
         """dense 2D array of a factor whose last leg is A.legs[1]"""
         if self.nR == 2:
             X = X.split_legs(X.rank - 1)
         a = X.to_ndarray()
-        return a.reshape(-1, self.dR)
+        return a.reshape(a.size // self.dR, self.dR)
 
     def both(self, X):
         sp = []
@@ -311,6 +312,10 @@ def _opt_q(v):
     return None if isinstance(v, str) else _cvec(v)
 
 
+def _qt_as_list(l):
+    return l['op'] == 'svd' and l['qm'] in ('LR', 'LN', 'NR', 'bad') and bool(l['lab'])
+
+
 def _cutoff(l):
     if l['cut'] == 'none':
         return None
@@ -363,6 +368,8 @@ def op_svd(B, l, npc, force_fallback=False):
     A = B.A
     kw = dict(full_matrices=bool(l['full']), compute_uv=bool(l['cu']), cutoff=_cutoff(l),
               qtotal_LR=[_opt_q(l['argLR'][0]), _opt_q(l['argLR'][1])], inner_labels=_labs(l), inner_qconj=int(l['iq']))
+    if _qt_as_list(l):      # charges given as plain Python lists (as everywhere else in the npc interface)
+        kw['qtotal_LR'] = [None if q is None else [int(x) for x in q] for q in kw['qtotal_LR']]
     if force_fallback:
         import scipy.linalg
         orig = scipy.linalg.svd
@@ -739,11 +746,12 @@ def classify(B, ana, l):
     """argument classes that go into a violation signature (never the random data)"""
     sects = ana['sect']
     two = [s for s in sects if s['m'] > 0 and s['n'] > 0]
-    c = dict(piped=bool(B.nL == 2 or B.nR == 2))
+    c = dict(piped=bool(B.nL == 2 or B.nR == 2), int_dtype=bool(B.dt == 'int'))
     op = l['op']
     zero = [0] * len(B.mod)
     if op == 'svd':
-        c.update(full=bool(l['full']), cut=str(l['cut']))
+        c.update(full=bool(l['full']), cut=str(l['cut']), qt_as_list=_qt_as_list(l),
+                 no_singular_values=bool(l.get('res') == 'ok' and l.get('K') == 0))
         if l['full'] and l.get('res') == 'ok' and 'qtL' in l:
             c.update(qtL_zero=list(l['qtL']) == zero, qtR_zero=list(l['qtR']) == zero,
                      all_sectors_stored=all(s['m'] > 0 and s['n'] > 0 and s['stored'] for s in sects))
@@ -756,7 +764,8 @@ def classify(B, ana, l):
     elif op == 'polar':
         c.update(left=bool(l['left']))
     elif op == 'speigs':
-        c.update(vec=bool(l['vec']), small=bool(l['k'] >= l['m'] - 1), all=bool(l['k'] == l['m']), sector_stored=bool(l['stored']), real_dtype=not B.cplx)
+        c.update(vec=bool(l['vec']), small=bool(l['k'] >= l['m'] - 1), all=bool(l['k'] == l['m']), sector_stored=bool(l['stored']), real_dtype=not B.cplx,
+                 zero_block=bool(l['stored'] and not np.any(np.array(l['sub']))))
     return c
 
 
